@@ -269,6 +269,58 @@ fn check_msg(lm: &LMsg, k: &Keyed, near: &[(KeySpec, HMACKey)], walk_faults: boo
     rep.nontrivial_by_construction();
 }
 
+/// Messages the library's encoder cannot produce (unknown attributes), bytes from the reference encoder: every integrity attribute
+/// is accepted by both routes untouched and refused after every single-bit fault in its protected prefix, header and value.
+fn check_wire_unknown(lm: &LMsg, k: &Keyed, rep: &mut Report) {
+    rep.eval();
+    let enc = ref_encode(lm, Some(k.raw));
+    let replay = || json!({"kind": "wire-message", "msg": cu::show_msg(lm), "bytes": hex(&enc), "key": k.spec.show()});
+    let plain = cu::decoder(Opts::default_ctx(), None);
+    let o = Opts { ctx: true, key: true, validation: true, unknown_data: false, not_ignore: false };
+    let validating = cu::decoder(o, Some(k.subject));
+    let p = ref_parse(&enc).expect("reference parses its own output");
+    let macs: Vec<_> = p.tlvs.iter().filter(|t| t.ty == T_MI || t.ty == T_SHA).cloned().collect();
+    let shape: Vec<&str> = lm.attrs.iter().filter(|a| matches!(a, L::Mi | L::Sha | L::Fp | L::Unknown(..))).map(|a| a.kind()).collect();
+    for t in &macs {
+        match accepted_each(&enc, t.ty, k.subject, &plain, &validating) {
+            Ok((true, true)) => rep.sym("accepted-untampered"),
+            Ok((d, v)) => {
+                let by = if !d && !v { "" } else if !d { "/by-the-validating-decoder" } else { "/by-get_input_text-and-validate" };
+                rep.violate(format!("untampered-message-rejected{}/{}/with-unknown-attribute/{}", by, kind_name(t.ty), shape.join("+")), "", replay());
+                return;
+            }
+            Err(pn) => {
+                rep.violate(format!("validation-panics/{}", crate::util::panic_site(&pn)), pn, replay());
+                return;
+            }
+        }
+    }
+    let mut m = enc.clone();
+    for t in &macs {
+        let end = t.off + 4 + t.value.len();
+        for i in 0..end {
+            if i == 2 || i == 3 {
+                continue;
+            }
+            for b in 0..8 {
+                m[i] ^= 1 << b;
+                rep.eval();
+                match accepted(&m, t.ty, k.subject, &plain, &validating) {
+                    Ok(false) => {}
+                    Ok(true) => rep.violate(
+                        format!("tampered-message-accepted/{}/with-unknown-attribute", kind_name(t.ty)),
+                        format!("bit {} of byte {} flipped", b, i),
+                        json!({"kind": "bytes", "original": hex(&enc), "tampered": hex(&m), "key": k.spec.show()}),
+                    ),
+                    Err(pn) => rep.violate(format!("validation-panics/{}", crate::util::panic_site(&pn)), pn, replay()),
+                }
+                m[i] ^= 1 << b;
+            }
+        }
+    }
+    rep.nontrivial_by_construction();
+}
+
 /// Keys come and go: a message is protected under one key object, message and key are dropped, and straight away another key
 /// of the same length (another password, another user) is created on the same thread - where the allocator may well hand out
 /// the very memory the first key occupied. Under the second key the first message must be refused by both routes, and a
@@ -500,6 +552,40 @@ pub fn run(ctx: &RunCtx) -> i32 {
             shared.merge(r);
         });
     }
+    // unknown attributes on the wire (bytes from the reference encoder): one unknown attribute (4 types, values of 0 / 1 / 4 / 7 / 33
+    // bytes) at every position of the six tails - in front, between the integrity attributes, before FINGERPRINT - alone and
+    // behind a SOFTWARE, under a short-term and a long-term key; full single-bit walk
+    {
+        let mut msgs: Vec<LMsg> = Vec::new();
+        for t in &tails {
+            for pos in 0..=t.len() {
+                for ty in [0x7F31u16, 0xFF31, 0x0033, 0xC003] {
+                    for len in [0usize, 1, 4, 7, 33] {
+                        for lead in [false, true] {
+                            let mut attrs: Vec<L> = if lead { vec![L::Software("ab".into())] } else { vec![] };
+                            let mut tt = t.clone();
+                            tt.insert(pos, L::Unknown(ty, Some((0..len).map(|x| (x * 7 + 3) as u8).collect())));
+                            attrs.extend(tt);
+                            msgs.push(menu::lmsg(1, 1, [0x53; 12], attrs));
+                        }
+                    }
+                }
+            }
+        }
+        for ks in [&keys[0], keys.iter().find(|k| matches!(k, KeySpec::Long { sha256: true, .. })).unwrap_or(&keys[0])] {
+            let subj = ks.subject().unwrap();
+            let raw = ks.ref_bytes();
+            msgs.par_chunks(16).for_each(|ch| {
+                let kk = Keyed { spec: ks, subject: &subj, raw: &raw };
+                let mut r = Report::new();
+                for lm in ch {
+                    check_wire_unknown(lm, &kk, &mut r);
+                }
+                r.sym("unknown-attributes-on-the-wire");
+                shared.merge(r);
+            });
+        }
+    }
     let mut rep = shared.into_inner();
     rep.outcome("accepted-iff-untampered-under-right-key");
     rep.outcome(format!("violations:{}", rep.violations.len()));
@@ -509,8 +595,8 @@ pub fn run(ctx: &RunCtx) -> i32 {
         Finish {
             level: "fault_enumeration",
             rule: format!("messages with 0..=2 body attributes over the {}-entry menu (values <=64 bytes; long values as singles) x 6 legal tails containing MI and/or SHA256 x {} keys (short-term incl. non-ASCII, long-term MD5 and SHA-256); for each: wire bytes == reference (independent HMAC over the RFC input under the independently derived key), every integrity attribute accepted under the right key whatever tail follows, rejected under every key differing in one character of user / realm / password (or algorithm), and rejected after every single-bit fault in the protected prefix (except header bytes 2-3), the attribute's own header and the MAC (pairs only under the first 3 keys; quick tier: pairs walk faults under one rotating tail). Plus one DATA blob of every length 0..=300 x 3 tails (fault walks for every length in the thorough tier, <=140 in the quick tier) and the deep messages of C01 (offsets around 256..4096 / 32768, long runs, repeats, rotations, quads) x 2 tails under a short-term and a long-term SHA-256 key, without fault walks; the offset family (MI / SHA256 / MI+SHA256+FINGERPRINT behind a filler at every 4-aligned body offset 0..=4200 (thorough 16,400), around multiples of 4096 (1024), every offset 65,300 up to the 65,532-byte maximum). For one walked message in 8 the MAC is also replaced by every value of a pattern family that careless comparisons accept (the same mask on two bytes a multiple of four apart x 3 masks, +1/-1 on neighbouring bytes, swapped / rotated / reversed words, inverted, right only in a prefix or suffix, all zero). Decoy values: a DATA blob whose last 48 bytes imitate the headers of MESSAGE-INTEGRITY / MESSAGE-INTEGRITY-SHA256 / FINGERPRINT at every word, singly and in every pair, x 6 tails. For one message in 16 the untampered and a tampered copy are also decoded by every construction route of the four validating decoder configurations (builder calls in every order, a repeated call, clones of decoder and context) and must get the canonical decoder's verdict. Every message is also re-issued: clones of the attributes of the encoded message in a message with another transaction id must encode to that message's reference bytes. Acceptance = validating decoder returns the attribute OR get_input_text+validate says true. Non-trivial = message that passed all of these; key objects that come and go (a message protected under one key, message and key dropped, another key of the same length created at once on the same thread - five key pairs, both orders, five tails, three rounds): the first message is refused under the second key by both routes and a message encoded under the second key carries its RFC HMAC; retransmissions: one validating decoder object is shown the untampered message and a tampered copy nine times in a fixed order (tampered four times in a row, then alternating), every presentation judged on its own", menu_v.len(), keys.len()),
-            assumptions: vec!["R-strings table for the non-ASCII passwords".into()],
-            required_symbols: vec!["key-derivation", "accepted-untampered", "rejected-wrong-key", "fault-walks", "long-values", "prefix-length-sweep", "deep-messages", "offset-family", "decoder-construction-routes", "decoy-values", "mac-patterns", "reissued-with-cloned-attributes", "rejected-under-a-later-key", "later-key-macs-are-its-own", "re-presentations"],
+            assumptions: vec!["R-strings table for the non-ASCII passwords".into(), "family unknown-attributes-on-the-wire: bytes from the reference encoder (the library cannot encode unknown attributes); one unknown attribute of 4 types x 5 value lengths at every position of the six tails, alone and behind a SOFTWARE, short-term and long-term SHA-256 key, full single-bit walk per integrity attribute".into()],
+            required_symbols: vec!["unknown-attributes-on-the-wire", "key-derivation", "accepted-untampered", "rejected-wrong-key", "fault-walks", "long-values", "prefix-length-sweep", "deep-messages", "offset-family", "decoder-construction-routes", "decoy-values", "mac-patterns", "reissued-with-cloned-attributes", "rejected-under-a-later-key", "later-key-macs-are-its-own", "re-presentations"],
             min_outcomes: 2,
             exhaustive: true,
             bounds: json!({"menu": menu_v.len(), "keys": keys.len(), "tails": 6}),
